@@ -1191,10 +1191,14 @@ func (g *c15Gen) emit(in c15In, class string) {
 	g.emit1(in, class)
 	// ... and the same script with a caller that reuses ONE array per direction for all its
 	// Reads / Writes (bufio-style); fuzzed inputs: every other one
-	if strings.HasPrefix(class, "random-bytes") || strings.HasPrefix(class, "illegal") || strings.HasPrefix(class, "mutated") || strings.HasPrefix(class, "scrambled") {
-		if g.n%2 == 0 {
-			return
-		}
+	fuzzed := strings.HasPrefix(class, "random-bytes") || strings.HasPrefix(class, "illegal") || strings.HasPrefix(class, "mutated") || strings.HasPrefix(class, "scrambled")
+	switch {
+	case fuzzed && !g.c.Thorough() && g.n%2 == 0:
+		return
+	case fuzzed && g.c.Thorough() && g.n%4 != 1: // thorough tier (-race harness): one in four
+		return
+	case g.c.Thorough() && strings.Contains(class, "err") && g.n%2 == 0: // bytes-with-error families: every other one
+		return
 	}
 	in.Reuse = 1 + g.n%4
 	g.c.E.Count("caller:reused-array")
